@@ -368,6 +368,8 @@ func snapTrace(args []string) int {
 			poly = genRect(rng, *w)
 		case "spiral":
 			poly = genSpiral(rng, *w)
+		case "court":
+			poly = genCourt(rng, *w)
 		case "arbitrary":
 			poly = genArbitrary(rng, *w, *nmax)
 		default:
